@@ -32,7 +32,7 @@ add("C09", "model_checking",
 
 add("C05", "model_checking",
     "per-edge invariant monitoring of exhaustively generated runs on the real Machine + explicit-state BFS (depth 3) over stimuli from every class of halted state reached",
-    "Every clock edge of every generated run (LDSP to all 256 values x walks x 5 stack sizes, recursion to the limit, jumps to all 256 targets x all 256 program-size limits, all first/second opcode bytes, all two-instruction sequences of a 23-instruction alphabet) is checked by an independent edge-level predictor of the Running/Stopped/ErrorStopped flip; halted states are expanded under 10 further stimuli to depth 3 and must be absorbing; continue from a STOP must resume with the next instruction (checked against REF-ISA); limits installed by Machine::load, all ordered pairs of loads incl. NOSET and empty programs, expectation taken from the program texts.",
+    "Every clock edge of every generated run (LDSP to all 256 values x walks x 5 stack sizes, recursion to the limit, jumps to all 256 targets x all 256 program-size limits, all first/second opcode bytes, all two-instruction sequences of a 23-instruction alphabet) is checked by an independent edge-level predictor of the Running/Stopped/ErrorStopped flip; halted states are expanded under 10 further stimuli to depth 3 and must be absorbing; continue from a STOP must resume with the next instruction (checked against REF-ISA); limits installed by Machine::load, all ordered pairs of loads incl. NOSET and empty programs, expectation taken from the program texts; the continue key (once, twice), the interrupt key and an input change before every edge of 600 halting programs must not move the halt.",
     "Trusted: REF-SUP bands (frozen) and predicates; the monitor reads pending-write/wait/last-bus-read latches via the verif-hooks accessors; at the conflict edge (rule broken and STOP loaded together) either halt kind is accepted.",
     "DESIGN.md 3/C05")
 
@@ -44,22 +44,22 @@ add("C11", "model_checking",
 
 add("C04", "model_checking",
     "deviation-bounded exhaustive schedule enumeration (0, 1, 2 key presses at every clock edge / every ordered pair in a window) of generated programs on the real Machine, each schedule observed edge by edge against the uninterrupted twin",
-    "For every program of the family (prologue + every body sequence up to length 2/3 over 25 instruction kinds x 3 interrupt routines x 4 register initialisations; + enable-bit-clear, other-MICR-bits and EI-less variants, + second lives after a cpu/master reset of a machine that had the interrupt enabled and taken, + a STOP in the main program followed by the continue key (presses while Stopped included); main programs that are not transparent by construction are left out and counted) the key is pressed before every single clock edge 0..T, and at every ordered pair of edges in a 120-edge window; each run must enter the routine exactly as often as the statement requires, push FR (IE set) and a return address that is a boundary state of the uninterrupted run, have IE clear inside, replay the uninterrupted boundary sequence of the main program, and end with identical registers/flags/SP/outputs/RAM (outside exactly the stack slots written by entry sequences and routines).",
+    "For every program of the family (prologue + every body sequence up to length 2/3 over 25 instruction kinds x 3 interrupt routines x 4 register initialisations; + enable-bit-clear, other-MICR-bits and EI-less variants, + second lives after a cpu/master reset of a machine that had the interrupt enabled and taken, + a STOP in the main program followed by the continue key (presses while Stopped included), + a re-entrant routine (nested entries); main programs that are not transparent by construction are left out and counted) the key is pressed before every single clock edge 0..T, and at every ordered pair of edges in a 120-edge window; each run must enter the routine exactly as often as the statement requires, push FR (IE set) and a return address that is a boundary state of the uninterrupted run, have IE clear inside, replay the uninterrupted boundary sequence of the main program, and end with identical registers/flags/SP/outputs/RAM (outside exactly the stack slots written by entry sequences and routines).",
     "Trusted: the classification of a press as 'while enabled' (MICR bit and IE at the press, IE still set at the sampling edge); presses in other windows may enter 0 or 1 times; sampling edges are read from the public Signals + wait latch accessor.",
     "DESIGN.md 3/C04")
 
 add("C02", "translation_validation",
     "translation validation: every program of exhaustively enumerated families is compiled by the real Translator (through both the AST and the text path) and its per-line bytes, image and limits are compared with an independent two-pass reference assembler",
-    "Instruction shapes (every form x operand shape x register), each placed after every prefix sequence (depth 1-3) of a 17-element directive/instruction alphabet with labels before and after every element referenced forward, backward and in mixed case through every referencing instruction form; relative jumps from every address 0..0xEC to every target 0..255; all limit directives; the repository's programs.",
+    "Instruction shapes (every form x operand shape x register), each placed after every prefix sequence (depth 1-3) of a 17-element directive/instruction alphabet with labels before and after every element referenced forward, backward and in mixed case through every referencing instruction form; relative jumps from every address 0..0xEC to every target 0..255; all limit directives; the repository's programs; long texts (up to 20 000 lines, 100 000-character lines); ordered triples of label names that sort differently under different collations.",
     "Trusted: REF-PARSE and REF-ASM (encoding table written out from the documented instruction table; label = address of the next byte, case-folded, last definition wins). Programs with backward .ORG or an image > 240 bytes are C06's.",
     "DESIGN.md 3/C02")
 add("C03", "exploration",
     "bounded exhaustive enumeration of input strings (grammar-derived sentence products, all short strings over a special-character alphabet, all single-token mutations of a corpus) with a differential oracle: real parser vs. an independent PEG recogniser + AST builder",
-    "For every enumerated input: no panic; accept/reject and error class agree with REF-PARSE; the binary's own file reader (`2a-emulator verify FILE`, 2 900 files incl. BOM / CR / CRLF / non-UTF-8) exits 0 exactly for texts of the language; on acceptance the complete AST (lines, instructions, operands, values, labels with case, trimmed comments, header comment) is equal.",
+    "For every enumerated input: no panic; accept/reject and error class agree with REF-PARSE; long texts (100..20 000 lines of every line kind, counts around 254-257, single lines of 100 000 characters); the binary's own file reader (`2a-emulator verify FILE`, 2 900 files incl. BOM / CR / CRLF / non-UTF-8) exits 0 exactly for texts of the language; on acceptance the complete AST (lines, instructions, operands, values, labels with case, trimmed comments, header comment) is equal.",
     "Trusted: REF-PARSE (hand transcription of the documented mrasm language into an own PEG interpreter). Strings outside the enumerated families are outside the verdict.",
     "DESIGN.md 3/C03")
 add("C06", "exploration",
-    "bounded exhaustive enumeration of accepted programs (every .ORG target after every position, images of every size 0..300 by 7 constructions x limit directives, every line kind followed by .ORG at the RAM limit, C02's jump/layout/limit families, the C03 families, token mutations) through parse -> compile -> load under a panic monitor; process-level confirmation with the real binary",
+    "bounded exhaustive enumeration of accepted programs (texts of up to 20 000 lines, every .ORG target after every position, images of every size 0..300 by 7 constructions x limit directives, every line kind followed by .ORG at the RAM limit, C02's jump/layout/limit families, the C03 families, token mutations) through parse -> compile -> load under a panic monitor; process-level confirmation with the real binary",
     "Every accepted text must survive Translator::compile, Machine::load / new_with_program, 12 steps and the byte-code listing; a cross-section is run through the real `2a-emulator verify` / `run` binary (verify exit 0 implies run does not die by panic). Three panics are known findings and are matched only when REF-ASM's layout class explains them.",
     "Trusted: REF-ASM's layout classification used to key findings (backward .ORG / image > 255 / image 241-255 bytes).",
     "DESIGN.md 3/C06")
@@ -71,7 +71,7 @@ add("C16", "exploration",
     "DESIGN.md 3/C16")
 
 add("C10", "model_checking",
-    "exhaustive enumeration of single operations (256 addresses x 256 values from rich prior states on 3 base buses incl. pending-interrupt ones) and of all 65 536 ordered write-address pairs, plus explicit-state BFS (depth 3/4) over reads, writes (special values), resets and port changes through Bus::board_mut() on the real Bus, lock-step with a map-based reference; every ordered pair of (address, value) writes inside the I/O page",
+    "exhaustive enumeration of single operations (256 addresses x 256 values from rich prior states on 3 base buses incl. pending-interrupt ones) and of all 65 536 ordered write-address pairs, plus explicit-state BFS (depth 3/4) over reads, writes (special values), resets and port changes through Bus::board_mut() on the real Bus, lock-step with a map-based reference; every ordered pair of (address, value) writes inside the I/O page; every address read and written by executed instructions (7 forms) from 6 prior states",
     "After every operation all 256 addresses are read and RAM, outputs, MICR key bit and the board are compared with REF-BUS; every read must leave the Bus value unchanged (PartialEq); writes to 0xF0-0xFF never change RAM, 0xEF/0xF0 boundary exact, input registers unaffected by writes, outputs only by 0xFE/0xFF.",
     "Trusted: REF-BUS; the board behind 0xF0-0xF3 is the real Board on the reference side (C14 checks the board); UART/timer registers have no read-back and are only checked not to leak into anything observable.",
     "DESIGN.md 3/C10")
@@ -94,13 +94,13 @@ add("C13", "exploration",
     "DESIGN.md 3/C13")
 
 add("C12", "model_checking",
-    "exhaustive enumeration of run schedules (program x configuration x every budget 0..40/60 x every sub-multiset of interrupt cycles x every sub-multiset of reset cycles from the boundary sets) on the real RunnerConfig::run against a reference loop over the public Machine API; all expectation subsets x match/mismatch for verify(); constructor == setters for every configuration field and pair; a RunnerConfig run twice and with fields assigned anew; stdout and exit status of the real binary per invocation (every byte literal in every spelling, 24 argument orders, -vvvv)",
+    "exhaustive enumeration of run schedules (program x configuration x every budget 0..40/60 x every sub-multiset of interrupt cycles x every sub-multiset of reset cycles from the boundary sets) on the real RunnerConfig::run against a reference loop over the public Machine API; all expectation subsets x match/mismatch for verify(); constructor == setters for every configuration field and pair; a RunnerConfig run twice and with fields assigned anew; stdout and exit status of the real binary per invocation (every byte literal in every spelling, 24 argument orders, -vvvv, budgets up to usize::MAX); error values and rendered messages of verify keep found/expected in their roles",
     "emulated_cycles and the whole final Machine (PartialEq) equal REF-RUN's for every schedule; RunExpectations::verify is Ok exactly when every stated field matches and reports a stated mismatching field; the binary prints those cycle/state/FE/FF values, accepts every byte value in every spelling of the three radices as an input flag and as an expectation, is independent of the order of positionals, options and --opt=value spellings (all 24 orders), rejects 256/0x100, and exits non-zero exactly on read, parse or verification failure.",
     "Trusted: REF-RUN (the statement's loop); parse/compile are shared with the subject (C02/C03); CLI argument errors only need to exit non-zero without running.",
     "DESIGN.md 3/C12")
 
 add("C17", "model_checking",
-    "exploration of the full tree of key sequences (22-key alphabet, depth 4/5, no merging of states) on the real Tui event dispatch; command pairs, triples and history recall; sessions started with a program and every initial setting; file names wider than the interface; exhaustive enumeration of terminal sizes and of a command-line family; every key compared with REF-EDIT / REF-CMD and a twin Machine driven by library calls; panic monitor on every transition and render",
+    "exploration of the full tree of key sequences (22-key alphabet, depth 4/5, no merging of states) on the real Tui event dispatch; command pairs, triples and history recall; sessions started with a program and every initial setting; file names wider than the interface; sessions of 320 / 1 200 submitted lines; exhaustive enumeration of terminal sizes and of a command-line family; every key compared with REF-EDIT / REF-CMD and a twin Machine driven by library calls; panic monitor on every transition and render",
     "No key sequence / size makes handle_event or Interface::render panic; cursor and history index stay in range; editing keys behave as REF-EDIT; a submitted line is rejected with a notification or has exactly the effect of the documented command on the machine (PartialEq against the twin), values above 255 and trailing garbage rejected; control keys act as the library calls of the same name.",
     "Trusted: REF-EDIT / REF-CMD; completion results are adopted (only invariants checked); float spellings other than plain decimals are unspecified; crossterm I/O, raw mode and the real-time pacing of Tui::run are outside the check.",
     "DESIGN.md 3/C17")
